@@ -101,6 +101,38 @@ def ensure_facts(repo=REPO, verbose=True):
         lock.close()
 
 
+def fingerprint(raw, rec):
+    """shape of a function that survives a rename: parameter types, and the ordered resolved callees and constants of its own
+    (non-macro) code; the function's own name is masked"""
+    h = hashlib.sha1()
+    own = raw['def'].split('::')[-1]
+    h.update(json.dumps([rec.get('params'), rec.get('ret'), bool(rec.get('async'))]).encode())
+    for bl in raw['blocks']:
+        if bl.get('cleanup'):
+            continue
+        for s in bl['s']:
+            if s.get('x', '').startswith('m:'):
+                continue
+            a = (s.get('rv') or {}).get('a') or {}
+            if 'k' in a and '{alloc' not in str(a['k']) and '::promoted[' not in str(a['k']):
+                h.update(str(a['k']).replace(own, '@').encode())
+        t = bl.get('term') or {}
+        if t.get('t') == 'call' and not t.get('x', '').startswith('m:'):
+            h.update((t.get('res') or t.get('fn') or '?').replace(own, '@').encode())
+    return h.hexdigest()[:16]
+
+
+def fingerprint_of(F, n):
+    """fingerprint of function n including the body of its coroutine (async fn) when there is one"""
+    fp = fingerprint(F.load_raw(n), F.fns[n])
+    co = n + '::{closure#0}'
+    if F.fns[n].get('async') and F.has_raw(co):
+        raw = dict(F.load_raw(co))
+        raw['def'] = n
+        fp += fingerprint(raw, {})
+    return fp
+
+
 class Facts:
     """Lazy store: item records are parsed eagerly (small), bodies on demand."""
 
@@ -156,7 +188,9 @@ class Facts:
         kp = os.path.join(os.path.dirname(os.path.abspath(__file__)), 'known_fns.json')
         if not os.path.exists(kp) or os.environ.get('VERIF_NO_INLINE'):
             return
-        known = set(json.load(open(kp)))
+        kj = json.load(open(kp))
+        known = set(kj['names']) if isinstance(kj, dict) else set(kj)
+        known_fp = kj.get('fp', {}) if isinstance(kj, dict) else {}
         # moved / re-homed functions: a known function is gone and exactly one new function carries its simple name
         # (associated fn made free, moved to another impl or module): keep analysing it under the path the tables use
         missing = {}
@@ -172,6 +206,25 @@ class Facts:
             news = fresh.get(name, [])
             if len(olds) == 1 and len(news) == 1 and len(self.fns[news[0]].get('params', [])) == len(self._known_params(olds[0], news[0])):
                 self.aliases[news[0]] = olds[0]
+        # renamed functions: a known function is gone and exactly one new function (with another name) has its fingerprint
+        taken_new = set(self.aliases)
+        taken_old = set(self.aliases.values())
+        fresh_fp = {}
+        for news in fresh.values():
+            for n in news:
+                if n not in taken_new:
+                    try:
+                        fresh_fp.setdefault(fingerprint_of(self, n), []).append(n)
+                    except Exception:
+                        pass
+        self._raw.clear()
+        for olds in missing.values():
+            for o in olds:
+                if o in taken_old or o not in known_fp:
+                    continue
+                cands = fresh_fp.get(known_fp[o], [])
+                if len(cands) == 1 and cands[0] not in self.aliases:
+                    self.aliases[cands[0]] = o
         if self.aliases:
             self._subst = [(json.dumps(n)[:-1].encode(), json.dumps(o)[:-1].encode()) for n, o in self.aliases.items()]
             for n, o in self.aliases.items():
